@@ -2353,6 +2353,7 @@ impl XmlElement {
     }
 
     pub fn append_attribute(&mut self, attr: Rc<XmlItem>) {
+        attr.set_parent_id(Some(self.id()));
         self.attributes.push(attr);
         self.context().invalidate_order();
     }
@@ -2392,6 +2393,7 @@ impl XmlElement {
         {
             self.attributes
                 .retain(|v| v.as_attribute().unwrap().borrow().local_name() != name);
+            v.set_parent_id(None);
             self.context().invalidate_order();
             Some(v)
         } else {
